@@ -105,7 +105,7 @@ Qed.
 Lemma dump_all_order : p_dump_all E1 fs = p_dump_all E2 fs.
 Proof.
   unfold p_dump_all. change (p_dbs E1 fs) with (p_dbs E2 fs). apply flat_map_ext. intros db.
-  rewrite dump_database_order. reflexivity.
+  unfold p_dump_all_db. rewrite tables_order, dump_database_order. reflexivity.
 Qed.
 
 (* ---------------- Summary and its two renderings ---------------- *)
